@@ -56,7 +56,7 @@ pub fn c17(data: &[u8]) {
         let _ = std::fs::create_dir_all(&dir);
         let _ = std::fs::write(&p, &adv.schema);
     }
-    let o = run_job_here(&Job { schema_path: p.to_string_lossy().into(), query: QuerySrc::Text(adv.query), opts: Opts::default() });
+    let o = run_job_here(&Job { schema_path: p.to_string_lossy().into(), query: QuerySrc::Text(adv.query), opts: Opts::default(), cwd: None });
     match o {
         Outcome::Ok(_) | Outcome::Err(_) => {}
         Outcome::Panic(m) => {
